@@ -63,6 +63,14 @@ def run_shard(spec, rng, ctx):
         case = C.draw_partition_case(rng, alg=alg, classes=CLASSES)
         judge(case, ctx)
         i += 1
+        if i % 4 == 3:
+            # snp / rnp / ckk with >= 3 bins and 7-10 items: these run many nested two-way searches on ONE bins-manager, so state that lives in the manager
+            # (or is keyed by object identity) between searches shows only here
+            alg = rng.choice(["snp", "snp", "rnp", "ckk"])
+            k = rng.choice([3, 3, 4]) if alg != "rnp" else rng.choice([3, 4, 5])
+            n = rng.randint(7, 10 if k == 3 else 9)
+            judge({"kind": "partition", "alg": alg, "k": k, "values": [rng.randint(0 if rng.random() < 0.1 else 1, rng.choice([20, 100, 100])) for _ in range(n)],
+                   "cls": "nested_searches", "pres": rng.choice(["list", "list", "dict_str", "array"]), "pres_seed": rng.randrange(1 << 30)}, ctx)
         if i % 500 == 250:
             # far corner: cbldm around its documented stack limit (about 1000 items). It must either refuse explicitly or return a true partition.
             n = rng.randint(1000, 1300)
